@@ -13,6 +13,11 @@ CLAIMED = {
    "DESIGN.md §4 C19",
    "Trusted: go/types, go/ssa, the alias abstraction (checker/core/alias.go) and freshness dataflow (checker/core/fresh.go); functions outside the module do not retain arguments (stdlib writers listed in a table); no reflect/unsafe on configuration structs (checked by R19.4). Embedder-supplied objects referenced by a configuration are out of scope.",
    "static ownership/freshness analysis on go/ssa: field-based may-alias taint + flow-sensitive freshness dataflow"),
+ "C17": ("proof",
+   "Sound static proof of the wrapper theorem for every call sequence and every flag/rights combination: (1) method-set exhaustiveness – every mutating method of sys.FS/sys.File is declared on the read-only wrapper and never delegates; (2) exhaustive finite-domain evaluation of the wrapper's OpenFile over all 4096 Oflag values shows no write access mode, O_CREAT or O_TRUNC reaches the wrapped FS; (3) the wrapper cannot be bypassed (registration site, result type, embedded-field readers, type assertions, fs.FS adapter reachability, WASI functions reach host mutation only through the mount interfaces). Tests sample flag combinations; this enumerates them.",
+   "DESIGN.md §4 C17",
+   "Trusted: go/types method sets, the mutating/read-only classification table of the two interfaces, the finite-domain flag interpreter, call-graph over-approximation (VTA∪CHA). Assumes the wrapped FS honours a read-only access mode and POSIX read-only descriptors cannot modify a file; embedder-supplied fs.File values that implement io.Writer are an embedder-granted capability.",
+   "static: method-set exhaustiveness (go/types) + finite-domain evaluation of flag dispatch + call-graph capability reachability (go/ssa, VTA)"),
 }
 
 NOT_APPLICABLE = {
